@@ -205,3 +205,7 @@ impl<Node> NodesTracker<Node> {
         self.pending_base = Some((separator, node, cutoff));
     }
 }
+
+#[cfg(kani)]
+#[path = "/verif/units/kani/beatree_update.rs"]
+mod verif_kani;
